@@ -130,6 +130,39 @@ def search(res, tier, seed, deep=False):
                     report("parallel:" + name, dict(inp, nr_processes=nproc), repr(errp)[:200] if outp is None else float(np.nanmax(np.abs(outp - out))),
                            "parallel run differs from the serial run")
 
+    # missing values at particular positions of single cells (the first time step, the last one, somewhere inside): the grid
+    # result is still the per-location result, cell by cell (debiasers that tolerate NaN: ISIMIP imputes, the mean-based ones
+    # propagate it), in serial and in parallel
+    for name in ["ISIMIP", "LinearScaling", "DeltaChange"]:
+        d = real_debiaser(name)
+        obs, hist, fut, tk = real_data(r, 2, 2)
+        obs, hist, fut = obs.copy(), hist.copy(), fut.copy()
+        where = {}
+        for (i, j), pos in zip([(0, 0), (0, 1), (1, 0)], [0, -1, r.randrange(1, fut.shape[0] - 1)]):
+            arr_name = r.choice(["obs", "cm_future"]); {"obs": obs, "cm_future": fut}[arr_name][pos, i, j] = np.nan
+            where["%d,%d" % (i, j)] = [arr_name, pos]
+        cols = {}
+        try:
+            for i in range(2):
+                for j in range(2):
+                    np.random.seed(7)
+                    with warnings.catch_warnings():
+                        warnings.simplefilter("ignore")
+                        cols[(i, j)] = d.apply_location(obs[:, i, j], hist[:, i, j], fut[:, i, j], **tk)
+        except Exception:
+            continue          # this configuration rejects missing values: nothing to compare
+        inp = dict(debiaser=name, missing_values=where, seed=seed)
+        for par in (False, True):
+            np.random.seed(7)
+            out, err = G.run_apply(d, obs, hist, fut, parallel=par, nr_processes=2, **tk)
+            res.case(("missing-values", name, par))
+            if out is None:
+                report("missing-values-exception:" + name, dict(inp, parallel=par), repr(err)[:300], "apply raised although apply_location handles every cell"); continue
+            for (i, j), col in cols.items():
+                if not np.array_equal(out[:, i, j], col, equal_nan=True):
+                    report("missing-values-cell:" + name, dict(inp, parallel=par, cell=[i, j]), dict(valid_in_grid=int(np.isfinite(out[:, i, j]).sum()), valid_per_location=int(np.isfinite(col).sum())),
+                           "with a missing value in a cell's series the grid result differs from apply_location on that series"); break
+
     # integer inputs: the result is floating and equals the per-location result on the converted series
     for name in ["LinearScaling", "QuantileMapping", "DeltaChange"]:
         d = real_debiaser(name)
